@@ -20,6 +20,7 @@ fn main() {
             // the channel promises never to block its callers: a case that does not return is a violation
             s.hang_is_violation(120);
             s.require("self-reported-metrics", 2000);
+            s.require("send-inside-receiver-allocation", 1000);
         s.require("overflow-via-send", 5000);
         s.require("overflow-via-try_send", 5000);
         s.require("overflow-via-async-send", 5000);
